@@ -5,7 +5,7 @@ import ast
 import math
 from fractions import Fraction as Fr
 
-from ..common import get_index, check_equal, check_degree, nf, const_close
+from ..common import get_index, check_equal, check_degree, nf, const_close, merged_paths, purity_obligations
 from ..interp import Interp, has_unknown
 from ..plf import Rat, Sym, Fn, find_atoms, show
 from ..report import AnalysisError
@@ -17,6 +17,10 @@ AST_ = "aotools.astronomy._astronomy"
 # published-constant tolerance for the 0.0581 / 0.314 relations (three 3-digit
 # constants are involved: 0.0581, 0.314, 0.423); measured gap on the pinned tree 2.0e-3
 TOL_PUBLISHED = 4e-3
+
+
+def _is_paths(v):
+    return isinstance(v, Rat) and any(isinstance(a, Fn) and a.name == "paths" for a in v.atoms())
 
 
 def run(rep, tier, root=None):
@@ -40,13 +44,21 @@ def run(rep, tier, root=None):
         rep.functions_analysed.add(f.fq)
         return f
 
+    def strip_ws(v):
+        # band names in the table carry no surrounding whitespace (checked under I8): stripping is the identity on valid bands
+        def g(a):
+            if isinstance(a, Fn) and a.name in ("str.strip", "str.lstrip", "str.rstrip") and len(a.args) == 1 and isinstance(a.args[0], Rat):
+                return a.args[0].subst(g)
+            return None
+        if isinstance(v, Rat):
+            return v.subst(g)
+        if isinstance(v, tuple):
+            return tuple(strip_ws(x) for x in v)
+        return v
+
     def call(mod, name, *args):
         f = F(mod, name)
-        v = I.returns(f, list(args))
-        vals = [x for _, x in v]
-        if len(vals) != 1:
-            raise AnalysisError("%s: %d return paths (expected 1)" % (f.fq, len(vals)))
-        return vals[0]
+        return strip_ws(merged_paths(I, f, args))
 
     names = ["cn2_to_seeing", "seeing_to_cn2", "cn2_to_r0", "r0_to_cn2", "r0_to_seeing", "seeing_to_r0",
              "coherenceTime", "isoplanaticAngle", "rytov_variance", "r0_from_slopes", "slope_variance_from_r0"]
@@ -57,6 +69,8 @@ def run(rep, tier, root=None):
         rep.sample({"function": f.fq, "normal_form": nf(forms[n])})
         if has_unknown(forms[n]):
             rep.unknown("I0.normal-form", f.fq, "no power-law normal form: %s" % nf(forms[n]), f.where())
+        elif _is_paths(forms[n]):
+            rep.violation("I0.normal-form", f.fq + ": one law on every path", "the converter computes different laws on different paths: %s" % nf(forms[n], 300), f.where())
         else:
             rep.ok("I0.normal-form", f.fq, nf(forms[n], 120))
     for n in ["photons_per_mag", "photons_per_band", "magnitude_to_flux", "flux_to_magnitude"]:
@@ -65,6 +79,8 @@ def run(rep, tier, root=None):
         rep.sample({"function": f.fq, "normal_form": nf(forms[n])})
         if has_unknown(forms[n]):
             rep.unknown("I0.normal-form", f.fq, "no normal form: %s" % nf(forms[n]), f.where())
+        elif _is_paths(forms[n]):
+            rep.violation("I0.normal-form", f.fq + ": one law on every path", "the converter computes different laws on different paths: %s" % nf(forms[n], 300), f.where())
         else:
             rep.ok("I0.normal-form", f.fq, nf(forms[n], 120))
 
@@ -214,6 +230,8 @@ def run(rep, tier, root=None):
         raise AnalysisError("FLUX_DICTIONARY literal not found")
     keys = [k.value for k in tab.keys if isinstance(k, ast.Constant)]
     want_keys = set("UBVRIJHKgriz")
+    rep.check(all(isinstance(k_, str) and k_ == k_.strip() for k_ in keys), "I8.band-table", "FLUX_DICTIONARY keys carry no whitespace",
+              "band names with surrounding whitespace: %s" % keys, "%s:%d" % (m.relpath, tab.lineno))
     rep.check(set(keys) == want_keys and len(keys) == 12, "I8.band-table", "FLUX_DICTIONARY keys",
               "band table must define exactly the twelve bands %s (found %s)" % (sorted(want_keys), keys),
               "%s:%d" % (m.relpath, tab.lineno))
@@ -229,4 +247,7 @@ def run(rep, tier, root=None):
         idx = sorted(set(int(complex(a.args[1].const_value()).real) for a in rows if isinstance(a.args[1], Rat) and a.args[1].is_const()))
         rep.check(idx == [1, 2], "I8.table-index", "%s uses FLUX_DICTIONARY[band][1] and [2]" % fn_,
                   "table columns used: %s" % idx, F(AST_, fn_).where())
+    # ---- I9 the converters are functions of their arguments only (profiles are reused across calls / stacked vs looped)
+    purity_obligations(rep, ix, [F(ATM, n) for n in names] + [F(AST_, n) for n in ("photons_per_mag", "photons_per_band", "magnitude_to_flux", "flux_to_magnitude")],
+                       "I9.pure", "a profile array passed again (looping over profiles on a shared grid, repeating a call) gives different numbers")
     rep.floor("C17 obligations", len(rep.obligations), 60)
